@@ -20,7 +20,8 @@ META = {
             "initialize_op_members + copy_ns_ops, pushed through PhysicalOperator.ad_to_evol_map and to_flavor_basis_tensor, "
             "give EXACTLY the identity on gluon, the nf active quarks/antiquarks and all inactive heavy quarks; with QED also on the "
             "photon, in pure QCD the photon row and column are zero; (3) the same with the debug skip flags off only (the flags "
-            "deliberately drop sectors).",
+            "deliberately drop sectors)."
+            " (4) several requests in ONE evaluator with the initial point on a matching scale and alternating initial flavour numbers: the parts to compute for target = initial point are the single empty segment (no state of an earlier request leaks into the path).",
     "note": "The statement is exact for the shortcut path, which is the path taken by every configuration the property covers "
             "(polarised/time-like flags, method and grid do not enter that path: decided by the absence of reads of those "
             "settings on it). The numerically integrated path of an expanded scale variation is excluded by the property.",
